@@ -308,6 +308,12 @@ func validateSamples(eng *sym.Engine, h HarnessDef, st *sym.ExploreStats, params
 		f := filepath.Join(scratch(), fmt.Sprintf("sample_%s_%d.json", h.Func, i))
 		os.WriteFile(f, b, 0o644)
 		res := runNative(bin, f, 120*time.Second)
+		if strings.Contains(res.Panic, "assumption false under replayed inputs") {
+			// the path's h.Assume compares an input with bytes the real code produced (real
+			// snappy/CRC/gob bytes differ from the model's): this sample has no native
+			// counterpart; it is skipped, not counted as validated
+			continue
+		}
 		if res.Panic != "" || res.TimedOut {
 			errs = append(errs, fmt.Sprintf("sample %d: native run panicked/timed out (%s) inputs=%v", i, res.Panic, s.Inputs))
 			continue
